@@ -456,7 +456,14 @@ def call_method(ex, recv, name, args, kwargs, node=None):
     raise Unsupported(f'method {name} on {recv!r}')
 
 
+BYTES_METHOD_HOOKS: dict = {}  # name -> fn(ex, recv, args, kwargs) -> value | NotImplemented  (pyvc/ext_*.py)
+
+
 def bytes_method(ex, recv, name, args, kwargs):
+    if name in BYTES_METHOD_HOOKS:
+        r_ = BYTES_METHOD_HOOKS[name](ex, recv, args, kwargs)
+        if r_ is not NotImplemented:
+            return r_
     if name == 'hex':
         if isinstance(recv, bytes):
             return recv.hex(*args)
@@ -983,7 +990,11 @@ def struct_pack(ex, fmt, *vals):
             continue
         t = zint(v)
         ok = z3.And(t >= -(lim // 2), t < lim // 2) if signed else z3.And(t >= 0, t < lim)
-        if not ex.spec_mode:
+        if getattr(ex, 'quant_reqs', None) is not None:
+            # body of a comprehension of the code under proof over a sequence of symbolic length: the range
+            # requirement is collected per element (seqspec: the comprehension raises iff some element violates it)
+            ex.quant_reqs.append((ok, _struct.error, 'argument out of range'))
+        elif not ex.spec_mode:
             if not ex.branch(mk_bool(ok)):
                 raise PyExc(ex.new_exception(_struct.error, 'argument out of range'))
         u = t % lim if signed else t
